@@ -84,6 +84,11 @@ Pop(o, k, dflt) ==
                    ~HasKey(objs[o].map, k) /\ ~dflt)
 Update(o, pairs) == /\ Upd(o, SetAll(objs[o], pairs))
                     /\ last' = [Rec("update", o, NOKEY, 0, NOKEY, NOKEY, FALSE, 0, FALSE) EXCEPT !.pairs = pairs]
+(* a bulk update that fails part-way (the iterable raises after `pairs`, or the next pair is malformed):
+   the items stored before the failure ARE part of the mapping, and each of them went through
+   SetItem, so the memo table is as clear as after a complete update (PrefixOfFailedUpdateCounts) *)
+UpdateFail(o, pairs) == /\ Upd(o, SetAll(objs[o], pairs))
+                        /\ last' = [Rec("updatefail", o, NOKEY, 0, NOKEY, NOKEY, FALSE, 0, TRUE) EXCEPT !.pairs = pairs]
 Clear(o) ==     /\ Upd(o, DelAll(objs[o]))
                 /\ last' = Rec("clear", o, NOKEY, 0, NOKEY, NOKEY, FALSE, 0, FALSE)
 SetDefault(o, k, h) ==
@@ -108,7 +113,7 @@ Pairs == UNION {[1..n -> [k : Keys, h : HandlerIds]] : n \in 1..MaxUpdate}
 
 Mutate(o) == \/ \E k \in Keys, h \in HandlerIds : Set(o, k, h) \/ SetDefault(o, k, h)
              \/ \E k \in Keys : Del(o, k) \/ Pop(o, k, TRUE) \/ Pop(o, k, FALSE)
-             \/ \E ps \in Pairs : Update(o, ps)
+             \/ \E ps \in Pairs : Update(o, ps) \/ UpdateFail(o, ps)
              \/ Clear(o) \/ Copy(o)
 Next == \E o \in DOMAIN objs :
             \/ Mutate(o)
